@@ -100,13 +100,13 @@ BODY = r'''
 pub trait InnerBody {
     spec fn ended(&self) -> bool;
     // the frame most recently delivered by poll_frame
-    spec fn last(&self) -> Option<Frame<Bytes>>;
+    spec fn last(&self) -> Option<Frame<BufData>>;
     // all DATA bytes delivered so far
     spec fn received(&self) -> Seq<u8>;
 }
 // what the grpc-web layer must emit for one frame of the gRPC response (PROTOCOL-WEB.md): DATA unchanged, trailers as one
 // 0x80 frame; the text variant is the base64 of that
-pub open spec fn web_image(enc: Encoding, f: Frame<Bytes>) -> Seq<u8> {
+pub open spec fn web_image(enc: Encoding, f: Frame<BufData>) -> Seq<u8> {
     let raw = match f {
         Frame::Data(d) => d@,
         Frame::Trailers(t) => seq![0x80u8] + be32(trailer_block(t@).len() as int) + trailer_block(t@),
@@ -116,7 +116,7 @@ pub open spec fn web_image(enc: Encoding, f: Frame<Bytes>) -> Seq<u8> {
 pub struct PinMut<'a, S> { pub p: &'a mut S }
 impl<'a, B: InnerBody> PinMut<'a, B> {
     #[verifier::external_body]
-    pub fn poll_frame(self, cx: &mut Context) -> (r: Poll<Option<Result<Frame<Bytes>, Status>>>)
+    pub fn poll_frame(self, cx: &mut Context) -> (r: Poll<Option<Result<Frame<BufData>, Status>>>)
         ensures r matches Poll::Ready(None) ==> final(self.p).ended(), r matches Poll::Ready(Some(Ok(f))) ==> final(self.p).last() == Some(f),
             match r { Poll::Ready(Some(Ok(Frame::Data(d)))) => final(self.p).received() == old(self.p).received() + d@, _ => final(self.p).received() == old(self.p).received() },
     { unimplemented!() }
@@ -233,8 +233,8 @@ def build():
          ])
     u.close('}')
     hdr = 'impl<B: InnerBody> GrpcWebCall<B> {'
-    unreach = dict(params='_e: Frame<Bytes>', ret='(x: Bytes)', requires=['false'])
-    unreach_h = dict(params='_e: Frame<Bytes>', ret='(x: HeaderMap)', requires=['false'])
+    unreach = dict(params='_e: Frame<BufData>', ret='(x: BufData)', requires=['false'])
+    unreach_h = dict(params='_e: Frame<BufData>', ret='(x: HeaderMap)', requires=['false'])
     u.fn(C, 'poll_encode', within='impl<B> GrpcWebCall<B>', nth=0, header=hdr, close=False,
          body_start='        broadcast use axiom_bytes_of_string, axiom_trailer_block_small, lemma_take_all;',
          closures={0: unreach, 1: unreach_h},
@@ -246,12 +246,11 @@ def build():
              Clause('E4_frame', 'final(self).encoding == old(self).encoding && final(self).direction == old(self).direction && final(self).client == old(self).client'),
          ])
     W = 'old(self).buf@ + final(self).inner.received().skip(old(self).inner.received().len() as int)'
-    u.fn(C, 'poll_decode', within='impl<B> GrpcWebCall<B>', nth=0, body_edits=[r19_merge_guard_arms],
+    u.fn(C, 'poll_decode', within='impl<B> GrpcWebCall<B>', nth=0, body_edits=[r19_merge_guard_arms], props=['C16', 'C17'],
          attrs=['#[verifier::exec_allows_no_decreases_clause]', '#[verifier::loop_isolation(false)]'],
          closures={0: unreach,
-                   1: dict(params='f: Frame<Bytes>', ret='(x: Frame<Bytes>)', ensures=['match f { Frame::Data(d) => x matches Frame::Data(o) && o@ == d@, Frame::Trailers(t) => x == Frame::<Bytes>::Trailers(t) }']),
-                   2: dict(params='mut d: Bytes', ret='(x: Bytes)', ensures=['x@ == d@'])},
-         requires=['old(self).encoding == Encoding::Base64'],
+                   1: dict(params='f: Frame<BufData>', ret='(x: Frame<Bytes>)', ensures=['match f { Frame::Data(d) => x matches Frame::Data(o) && o@ == d@, Frame::Trailers(t) => x == Frame::<Bytes>::Trailers(t) }']),
+                   2: dict(params='mut d: BufData', ret='(x: Bytes)', ensures=['x@ =~= d@'])},
          hints=[('before', 'self.as_mut().decode_chunk()', 'let ghost b0 = self.buf@; let ghost r0 = self.inner.received();')],
          loops={0: dict(invariant=[
              'self.encoding == Encoding::Base64',
@@ -260,11 +259,20 @@ def build():
              'self.buf@ == old(self).buf@ + self.inner.received().skip(old(self).inner.received().len() as int)',
          ])},
          ensures=[
+             Clause('N1_binary_mode_forwards_every_inner_frame_with_all_of_its_bytes',
+                    '''old(self).encoding == Encoding::None ==> final(self).buf == old(self).buf && match r {
+                        Poll::Ready(Some(Ok(Frame::Data(o)))) => (final(self).inner.last() matches Some(Frame::Data(d)) && o@ == d@) && final(self).inner.received() == old(self).inner.received() + o@,
+                        Poll::Ready(Some(Ok(Frame::Trailers(t)))) => final(self).inner.last() == Some(Frame::<BufData>::Trailers(t)) && final(self).inner.received() == old(self).inner.received(),
+                        Poll::Ready(None) => final(self).inner.ended() && final(self).inner.received() == old(self).inner.received(),
+                        _ => final(self).inner.received() == old(self).inner.received() }''', ['C16', 'C17']),
+             Clause('N2_binary_mode_touches_nothing_else',
+                    '''old(self).encoding == Encoding::None ==> final(self).decoded == old(self).decoded && final(self).trailers == old(self).trailers && final(self).inner_done == old(self).inner_done
+                        && final(self).client == old(self).client && final(self).direction == old(self).direction && final(self).encoding == old(self).encoding''', ['C16', 'C17']),
              Clause('B1_text_request_bytes_are_decoded_in_order_nothing_lost',
-                    f'''r matches Poll::Ready(Some(Ok(Frame::Data(b)))) ==> ({{ let w = {W}; let n = ((w.len() / 4) * 4) as int;
+                    f'''r matches Poll::Ready(Some(Ok(Frame::Data(b)))) ==> old(self).encoding == Encoding::Base64 ==> ({{ let w = {W}; let n = ((w.len() / 4) * 4) as int;
                     w.len() >= 4 && b64_dec(w.take(n)) == Some(b@) && final(self).buf@ == w.skip(n) }})'''),
-             Clause('B2_clean_end_only_with_nothing_left_over', f'r matches Poll::Ready(None) ==> final(self).inner.ended() && ({W}).len() == 0'),
-             Clause('B3_pending_keeps_the_carry', f'r is Pending ==> final(self).buf@ == {W} && ({W}).len() < 4'),
+             Clause('B2_clean_end_only_with_nothing_left_over', f'old(self).encoding == Encoding::Base64 && (r matches Poll::Ready(None)) ==> final(self).inner.ended() && ({W}).len() == 0'),
+             Clause('B3_pending_keeps_the_carry', f'old(self).encoding == Encoding::Base64 && r is Pending ==> final(self).buf@ == {W} && ({W}).len() < 4'),
          ])
     u.close('}')
     return u
